@@ -371,3 +371,77 @@ func H_C05_step2() {
 	h.check("after two operations every live list shows what the sequence model predicts")
 	verifReach("end")
 }
+
+// three dependent steps around Sort: an operation that may leave hidden state behind (Sort, Reverse, Clear),
+// then an arbitrary mutator, then every observer — compared with the sequence model
+func H_C05_three_steps_after_sort() {
+	verifBound("OPS_AFTER_SORT", 3)
+	n := nondetIntRange(2, 3)
+	l := NewList()
+	m := make([]mval, 0, n)
+	for i := 0; i < n; i++ {
+		v := nondetInt()
+		l.Add(v)
+		m = append(m, mval{kind: TypeInt, i: v})
+	}
+	// step 1
+	switch nondetIntRange(0, 1) {
+	case 0:
+		l.Sort()
+		for i := 0; i < len(m); i++ { // model: sort the ints
+			for j := i + 1; j < len(m); j++ {
+				if m[j].i < m[i].i {
+					m[i], m[j] = m[j], m[i]
+				}
+			}
+		}
+	default:
+		l.Sort().Reverse()
+		for i := 0; i < len(m); i++ {
+			for j := i + 1; j < len(m); j++ {
+				if m[j].i > m[i].i {
+					m[i], m[j] = m[j], m[i]
+				}
+			}
+		}
+	}
+	// step 2: a mutator with symbolic arguments
+	v := nondetInt()
+	mv := mval{kind: TypeInt, i: v}
+	switch nondetIntRange(0, 5) {
+	case 0:
+		idx := nondetIntRange(0, len(m))
+		l.Insert(idx, v)
+		m = mInsert(m, idx, mv)
+	case 1:
+		l.Add(v)
+		m = append(mCopy(m), mv)
+	case 2:
+		idx := nondetIntRange(0, len(m)-1)
+		l.Replace(idx, v)
+		m = mCopy(m)
+		m[idx] = mv
+	case 3:
+		idx := nondetIntRange(0, len(m)-1)
+		l.Delete(idx)
+		m = mDelete(m, idx)
+	case 4:
+		l.SetTF("#0", v)
+		m = mCopy(m)
+		m[0] = mv
+	default:
+		l.Pop()
+		m = mCopy(m[:len(m)-1])
+	}
+	// step 3: observers
+	verifAssert(hSameSlots(mval{elem: m}, hSnapList(l, false)), "after three dependent steps the list shows what the sequence model predicts")
+	q := nondetInt()
+	first := -1
+	for i := len(m) - 1; i >= 0; i-- {
+		first = verifIteInt(m[i].i == q, i, first)
+	}
+	verifAssert(l.Contains(q) == (first >= 0), "Contains iff some element is the same value / identical container")
+	verifAssert(l.IndexOf(q) == first, "IndexOf is the first position holding the value, or -1")
+	verifAssert(l.Count() == len(m) && l.Empty() == (len(m) == 0), "Count / Empty describe the list")
+	verifReach("end")
+}
